@@ -321,7 +321,17 @@ where
             // Position of the item's offset slot; its payload starts `OFFSET_SIZE` later.
             let pos = iter.pos;
             match iter.next() {
-                Some(item_bytes) => T::validate(item_bytes?).map_err(|e| e.offset(pos + Self::OFFSET_SIZE))?,
+                Some(item_bytes) => {
+                    // The extent of a sealed (not last) item is fixed by its offset slot: more bytes cannot make it fit.
+                    let sealed = iter.data.is_some();
+                    T::validate(item_bytes?).map_err(|e| {
+                        let kind = match e.kind {
+                            ErrorKind::InsufficientSize if sealed => ErrorKind::InvalidData,
+                            kind => kind,
+                        };
+                        Error { kind, pos: e.pos }.offset(pos + Self::OFFSET_SIZE)
+                    })?
+                }
                 None => break,
             }
         }
